@@ -338,6 +338,16 @@ KEY_EXTRA = [
 ]
 
 
+# wide, sparse execution spaces: few instances, but the product of the leading parameter RANGES (max-min+1) exceeds 2^31 / reaches 2^32
+# (strided element offsets): the key arithmetic must be 64-bit throughout (seeded change C23-1).  Hash back-end only (the index-array
+# back-end would allocate the full ranges).
+KEY_WIDE = [
+    ('i, j, t',    ['i = 0 .. 98304 .. 32768', 'j = 0 .. 98304 .. 32768', 't = 0 .. N']),
+    ('x, y, z, t', ['x = 0 .. 2047 .. 2047', 'y = 0 .. 2047 .. 2047', 'z = 0 .. 1023 .. 1023', 't = 0 .. 1']),
+    ('i, j, t',    ['i = -70000 .. 70000 .. 70000', 'j = -70000 .. 70000 .. 35000', 't = -1 .. 0']),
+]
+
+
 def key_bundle(name, shapes, variants, succ=False):
     cl = []
     for i, (params, locs) in enumerate(shapes):
@@ -363,6 +373,7 @@ def c23_family(tier):
     follow = [s for s in derived if s[0].startswith('a, s')]
     p = key_bundle('kx_derived_ht', follow, v, succ=True); p.backends = ('ht',); progs.append(p)
     progs.append(key_bundle('kx_derived', [s for s in derived if s not in follow], v, succ=True))
+    p = key_bundle('kx_wide_ht', KEY_WIDE, NV(1, 2), succ=True); p.backends = ('ht',); progs.append(p)
     shapes = key_classes(2 if tier == 'quick' else 3)
     per = 10
     for i in range(0, len(shapes), per):
